@@ -4,7 +4,7 @@ use hulc::bdl::{build_blocks, BdlBlock, BdlBlockType, Data};
 use serde_json::json;
 
 use crate::core::{Case, Obs, Property, Tier};
-use crate::gen::bdl::{expected_parents, gen_building, print_blocks, ABlock, ABuilding, AShade, AVal, BuildCfg, Layout, WallLoc};
+use crate::gen::bdl::{expected_parents, gen_building, many_vertex_shade, print_blocks, ABlock, ABuilding, AShade, AVal, BuildCfg, Layout, WallLoc};
 use crate::panicx::guard;
 use crate::rng::Rng;
 
@@ -287,7 +287,14 @@ impl C18 {
     fn typed(&self, rng: &mut Rng, case: &Case, obs: &mut Obs) {
         // half of the buildings in legacy form: attributes with a documented default left out
         let legacy = case.index % 2 == 1;
-        let b = gen_building(rng, &BuildCfg { legacy_absent: legacy, ..BuildCfg::full() });
+        let mut b = gen_building(rng, &BuildCfg { legacy_absent: legacy, ..BuildCfg::full() });
+        // every third building also carries one or two shades with 10..=14 corners
+        if case.index % 3 == 0 {
+            for k in 0..1 + rng.usize(2) {
+                b.shades.push(many_vertex_shade(rng, format!("SombraPoli{:02}", k)));
+                obs.count("typed_shades_with_10_or_more_vertices");
+            }
+        }
         let blocks = b.blocks();
         let lay = if rng.chance(0.3) { Layout::hulc() } else { Layout::random(rng) };
         let text = print_blocks(rng, &blocks, &lay);
@@ -919,6 +926,7 @@ impl Property for C18 {
             v.push((format!("legacy-absent:{}", a), 30));
         }
         v.push(("typed_walls".into(), 3000));
+        v.push(("typed_shades_with_10_or_more_vertices".into(), 300));
         v.push(("typed_windows".into(), 200));
         v.push(("typed_schedules".into(), 1000));
         v.push(("real_files_reprinted".into(), 60));
